@@ -142,6 +142,7 @@ class VizierServicer(vizier_service_pb2_grpc.VizierServiceServicer):
         study_pb2.Study.State.STATE_UNSPECIFIED,
     )
 
+  @grpc_util.convert_custom_errors
   def CreateStudy(
       self,
       request: vizier_service_pb2.CreateStudyRequest,
@@ -205,6 +206,7 @@ class VizierServicer(vizier_service_pb2_grpc.VizierServiceServicer):
       self.datastore.create_study(study)
     return study
 
+  @grpc_util.convert_custom_errors
   def GetStudy(
       self,
       request: vizier_service_pb2.GetStudyRequest,
@@ -213,6 +215,7 @@ class VizierServicer(vizier_service_pb2_grpc.VizierServiceServicer):
     """Gets a Study by name. If the study does not exist, return error."""
     return self.datastore.load_study(request.name)
 
+  @grpc_util.convert_custom_errors
   def ListStudies(
       self,
       request: vizier_service_pb2.ListStudiesRequest,
@@ -222,6 +225,7 @@ class VizierServicer(vizier_service_pb2_grpc.VizierServiceServicer):
     studies = self.datastore.list_studies(request.parent)
     return vizier_service_pb2.ListStudiesResponse(studies=studies)
 
+  @grpc_util.convert_custom_errors
   def DeleteStudy(
       self,
       request: vizier_service_pb2.DeleteStudyRequest,
@@ -231,6 +235,7 @@ class VizierServicer(vizier_service_pb2_grpc.VizierServiceServicer):
     self.datastore.delete_study(request.name)
     return empty_pb2.Empty()
 
+  @grpc_util.convert_custom_errors
   def SetStudyState(
       self,
       request: vizier_service_pb2.SetStudyStateRequest,
@@ -242,6 +247,7 @@ class VizierServicer(vizier_service_pb2_grpc.VizierServiceServicer):
       self.datastore.update_study(study)
     return study
 
+  @grpc_util.convert_custom_errors
   def SuggestTrials(
       self,
       request: vizier_service_pb2.SuggestTrialsRequest,
@@ -477,6 +483,7 @@ class VizierServicer(vizier_service_pb2_grpc.VizierServiceServicer):
       self.datastore.update_suggestion_operation(output_op)
       return output_op
 
+  @grpc_util.convert_custom_errors
   def GetOperation(
       self,
       request: operations_pb2.GetOperationRequest,
@@ -485,6 +492,7 @@ class VizierServicer(vizier_service_pb2_grpc.VizierServiceServicer):
     """Gets the latest state of a SuggestTrials() long-running operation."""
     return self.datastore.get_suggestion_operation(request.name)
 
+  @grpc_util.convert_custom_errors
   def CreateTrial(
       self,
       request: vizier_service_pb2.CreateTrialRequest,
@@ -511,6 +519,7 @@ class VizierServicer(vizier_service_pb2_grpc.VizierServiceServicer):
       self.datastore.create_trial(trial)
     return trial
 
+  @grpc_util.convert_custom_errors
   def GetTrial(
       self,
       request: vizier_service_pb2.GetTrialRequest,
@@ -519,6 +528,7 @@ class VizierServicer(vizier_service_pb2_grpc.VizierServiceServicer):
     """Gets a Trial."""
     return self.datastore.get_trial(request.name)
 
+  @grpc_util.convert_custom_errors
   def ListTrials(
       self,
       request: vizier_service_pb2.ListTrialsRequest,
@@ -528,6 +538,7 @@ class VizierServicer(vizier_service_pb2_grpc.VizierServiceServicer):
     list_of_trials = self.datastore.list_trials(request.parent)
     return vizier_service_pb2.ListTrialsResponse(trials=list_of_trials)
 
+  @grpc_util.convert_custom_errors
   def AddTrialMeasurement(
       self,
       request: vizier_service_pb2.AddTrialMeasurementRequest,
@@ -575,6 +586,7 @@ class VizierServicer(vizier_service_pb2_grpc.VizierServiceServicer):
 
   # TODO: Auto selection defaults to the last measurement.
   # Add support for "best measurement" behavior.
+  @grpc_util.convert_custom_errors
   def CompleteTrial(
       self,
       request: vizier_service_pb2.CompleteTrialRequest,
@@ -621,6 +633,7 @@ class VizierServicer(vizier_service_pb2_grpc.VizierServiceServicer):
       self.datastore.update_trial(trial)
     return trial
 
+  @grpc_util.convert_custom_errors
   def DeleteTrial(
       self,
       request: vizier_service_pb2.DeleteTrialRequest,
@@ -638,6 +651,7 @@ class VizierServicer(vizier_service_pb2_grpc.VizierServiceServicer):
     return empty_pb2.Empty()
 
   # TODO: This currently uses the same algorithm as suggestion.
+  @grpc_util.convert_custom_errors
   def CheckTrialEarlyStoppingState(
       self,
       request: vizier_service_pb2.CheckTrialEarlyStoppingStateRequest,
@@ -835,6 +849,7 @@ class VizierServicer(vizier_service_pb2_grpc.VizierServiceServicer):
           should_stop=output_operation.should_stop
       )
 
+  @grpc_util.convert_custom_errors
   def StopTrial(
       self,
       request: vizier_service_pb2.StopTrialRequest,
@@ -880,6 +895,7 @@ class VizierServicer(vizier_service_pb2_grpc.VizierServiceServicer):
         grpc_util.handle_exception(e, context)
     return trial
 
+  @grpc_util.convert_custom_errors
   def ListOptimalTrials(
       self,
       request: vizier_service_pb2.ListOptimalTrialsRequest,
@@ -950,6 +966,7 @@ class VizierServicer(vizier_service_pb2_grpc.VizierServiceServicer):
         optimal_trials=optimal_trials
     )
 
+  @grpc_util.convert_custom_errors
   def UpdateMetadata(
       self,
       request: vizier_service_pb2.UpdateMetadataRequest,
